@@ -322,7 +322,8 @@ def gen(shard, rng, tier):
                 steps.append({"cli": {"argv": ["address"], "env": {"MNEMONIC": "@OUT:0@"}}})
             yield {"j": "scripted", "profile": "dev" if rng.random() < 0.3 else "release", "x": {"cls": "scripted", "L": L, "mode": mode}, "steps": steps}
     elif name == "illegal":
-        for L in range(0, 41):
+        # ... and lengths that are legal modulo 2^8 / 2^16 / 2^32 (a length narrowed before it is checked)
+        for L in list(range(0, 41)) + [256 + 12, 256 + 24, 512 + 15, 65536 + 12, 65536 + 24, 2**32 + 12, 2**32 + 24]:
             if L in LEGAL:
                 continue
             for p in ("release", "dev"):
@@ -390,7 +391,7 @@ def gen(shard, rng, tier):
         for _ in range(shard["count"]):
             r = rng.random()
             if r < 0.15:
-                L = rng.randrange(0, 41)
+                L = rng.randrange(0, 41) if rng.random() < 0.8 else rng.choice([256 + 12, 256 + 24, 512 + 18, 65536 + 12, 65536 + 24, 2**32 + 12, 2**32 + 24])
                 req = {"op": "mnemonic.random", "length": L}
             elif r < 0.3:
                 req = {"op": "mnemonic.random", "length": rng.choice(LEGAL), rng.choice(["fail_at", "fail_from"]): 1, "errno": rng.choice([5, 5, 4, 11, 14, 38, 1])}
